@@ -83,7 +83,10 @@ func NewGraphMultiBranch[T any](condition GraphMultiBranchCondition[T], endNodes
 			return nil, err
 		}
 		ret := make([]string, 0, len(ends))
-		for end := range ends {
+		for end, selected := range ends {
+			if !selected {
+				continue // answered false: not selected
+			}
 			if !endNodes[end] {
 				return nil, fmt.Errorf("branch invocation returns unintended end node: %s", end)
 			}
@@ -106,7 +109,10 @@ func NewStreamGraphMultiBranch[T any](condition StreamGraphMultiBranchCondition[
 		}
 
 		ret := make([]string, 0, len(ends))
-		for end := range ends {
+		for end, selected := range ends {
+			if !selected {
+				continue // answered false: not selected
+			}
 			if !endNodes[end] {
 				return nil, fmt.Errorf("branch invocation returns unintended end node: %s", end)
 			}
